@@ -3,7 +3,61 @@ NOTES = ("See DESIGN.md. Every check regenerates Lean definitions from /repo's w
          "theorems, audits their axioms, and runs the differential correspondence between the compiled Lean model and "
          "the implementation built with -tags verif.")
 NOT_APPLICABLE = {}
+_INJ = ("Tie: hand-written executable Lean model of backend_inotify.go (decode loop, both tables, register/updatePath, "
+        "remove/removePath, handleEvent, newEvent + cookie ring) run against the UNMODIFIED readEvents goroutine fed "
+        "through a SOCK_SEQPACKET pair with generated inotify byte streams and API calls; every answer (return class, "
+        "event sequence, error sequence, both tables, ring) is compared on every run. ")
+_INJ_NOTE = ("Trusted: Lean kernel (propext, Classical.choice, Quot.sound only); harness, hooks (VerifNewInjected duplicates "
+             "newBackend's struct literal) and canonicaliser; generator coverage (reported in evidence). Modelled, not "
+             "verified: the kernel contract K1-K5 (which records the kernel produces, wd freshness, cookie distinctness), "
+             "Go channel/select semantics. ")
 CHECKS = {
+ "C01": {
+  "text": "Theorems over the model, for ALL inputs: decode(encode recs) = recs for every list of well-formed records "
+          "(any count, name length, padding residue, offset; trailing partial header ignored); one record yields at most "
+          "one event; exact characterisation of the records that yield none (unknown wd, IGNORED/UNMOUNT, MOVE_SELF, "
+          "DELETE_SELF with parent listed, empty translation) and proof that every other record IS reported with the "
+          "translated op and entry name; batching irrelevance (rs1++rs2 in one read = two reads); overflow marker "
+          "announced as ErrEventOverflow and otherwise inert; default request mask complete w.r.t. the regenerated "
+          "translation table. " + _INJ + "Partial: that the kernel raises a record for every change cannot be proved here.",
+  "design_ref": "DESIGN.md §5 C01", "note": _INJ_NOTE,
+  "technique": "Lean 4 proofs (induction over record lists) over a hand-written model + differential correspondence on injected inotify streams",
+ },
+ "C02": {
+  "text": "Theorems over the model: every emitted event has Op != 0 and the name of a watch listed when its record is "
+          "handled (or a direct child of it); records with none of the 12 event bits (ISDIR, IGNORED, UNMOUNT, Q_OVERFLOW, "
+          "control bits) never surface; records for an unlisted wd are silent and change nothing; after Remove took an "
+          "entry out, records for its wd are silent; DELETE_SELF is suppressed when the parent is listed (reported once). "
+          + _INJ + "Partial: kernel silence for unwatched subdirectories / after rm_watch is K2/K3.",
+  "design_ref": "DESIGN.md §5 C02", "note": _INJ_NOTE,
+  "technique": "Lean 4 proofs over a hand-written model + differential correspondence on injected inotify streams",
+ },
+ "C03": {
+  "text": "Theorems over the model: the events of a batch are the per-record events in record order, across any split "
+          "into reads; a MOVED_FROM c / MOVED_TO c pair on listed watches yields exactly Rename(old), Create(new <- old), "
+          "adjacent. " + _INJ + "Event SEQUENCES (never sorted) are compared for Events buffer sizes {0,1,2,7,64,4096}. "
+          "Partial: kernel queue order and Go channel FIFO are assumptions.",
+  "design_ref": "DESIGN.md §5 C03", "note": _INJ_NOTE,
+  "technique": "Lean 4 proofs over a hand-written model + sequence-level differential correspondence",
+ },
+ "C08": {
+  "text": "Theorems over the model: an event's name is the stored watch path, or that path + '/' + the NUL-trimmed record "
+          "name, and nothing else (no link resolution); the stored path of a first Add is clean(arg); an Add answered with "
+          "an already listed wd leaves the existing entry (first alias wins); kernel-padded names of every length decode "
+          "exactly. " + _INJ + "filepath.Clean/Dir/Base are modelled in Lean and compared exhaustively over {a . /}^<=7.",
+  "design_ref": "DESIGN.md §5 C08", "note": _INJ_NOTE + "filepath.Clean/Dir/Base (stdlib) modelled and differentially validated only.",
+  "technique": "Lean 4 proofs over a hand-written model + differential correspondence (names at every padding residue, all path spellings)",
+ },
+ "C11": {
+  "text": "Theorems: the ten ring slots are exactly the last ten stored (cookie, old name) pairs (window invariant, by "
+          "induction over any number of stores); a lookup finds the pair of its own move if it is among the last ten and "
+          "cookies are distinct (K5), finds nothing if its cookie was never stored - however many unmatched move-outs "
+          "preceded; zero cookies neither store nor look up; a Create without IN_MOVED_TO never carries an old name. The "
+          "source text of the ring code is pinned by a regenerated fact. " + _INJ + "Includes chains of >10 moves, "
+          "unmatched move-outs and interleaved halves.",
+  "design_ref": "DESIGN.md §5 C11", "note": _INJ_NOTE,
+  "technique": "Lean 4 proofs (window invariant by induction) + differential correspondence incl. ring contents",
+ },
  "C15": {
   "text": "Machine-checked (Lean 4 kernel) theorems, for ALL 32/64-bit masks and all 2^9 op subsets, about the flag "
           "translators of the inotify, kqueue and Windows backends, the inotify request table and xSupports on all four "
